@@ -188,6 +188,12 @@ def finish(prop, tier, seed, level, results, dead, t0, m):
     # replays
     vlines = []
     seen_kinds = {}
+    table = {}
+    for f in violations:
+        key = (f['kind'], ','.join(f.get('tags') or []))
+        table[key] = table.get(key, 0) + 1
+    for (kind, tg), n in sorted(table.items(), key=lambda kv: -kv[1])[:40]:
+        print(f'  [{n:5d}] kind={kind} tags={tg or "-"}')
     for i, f in enumerate(violations):
         key = f['kind']
         seen_kinds[key] = seen_kinds.get(key, 0) + 1
@@ -199,7 +205,8 @@ def finish(prop, tier, seed, level, results, dead, t0, m):
                        'hashseed': f.get('hashseed'), 'case': f.get('case'),
                        'engine': WORKERS[prop][0]}, fh, indent=1, default=_jd)
         vlines.append(f'VIOLATION property={prop} replay={path}')
-        print(f'  kind={f["kind"]} tags={f.get("tags")} detail={json.dumps(f["detail"], default=_jd)[:400]}')
+        if os.environ.get('VERIF_VERBOSE'):
+            print(f'  kind={f["kind"]} tags={f.get("tags")} detail={json.dumps(f["detail"], default=_jd)[:400]}')
     for line in vlines:
         print(line)
     wall = time.time() - t0
